@@ -213,8 +213,12 @@ class Mini:
                 return r, head
         return None, None
 
+    generic_lits = None
+
     def call_fn(self, path, args, crate=None):
         crate = crate or self.crate
+        if self.generic_lits is None:
+            self.generic_lits = set()
         for suffix, f in getattr(self, "overrides", {}).items():
             if path.endswith(suffix):
                 return f(args)
@@ -357,6 +361,10 @@ class Mini:
                     return nz if op == "Ne" else not nz
                 if isinstance(other, (Tok, Wide)) and op in ("Eq", "Ne") and sym == other:
                     return op == "Eq"
+                if getattr(self, "generic_ne", False) and op in ("Eq", "Ne") and isinstance(other, (int, float)) and not isinstance(other, bool) and other != 0:
+                    # the "generic value" class: a value different from every literal the code compares it with
+                    self.generic_lits.add(other)
+                    return op == "Ne"
                 raise Unsupported(f"comparison {a!r} {op} {b!r}")
             return {"Eq": a == b, "Ne": a != b, "Lt": a < b, "Le": a <= b, "Gt": a > b, "Ge": a >= b}[op]
         nbytes = INT_BITS.get(ty, 64) // 8
@@ -450,6 +458,13 @@ class Mini:
         if to in INT_BITS:
             if isinstance(v, bool):
                 return int(v)
+            if isinstance(v, float):
+                # Rust `as`: truncation toward zero, saturating, NaN -> 0
+                bits = INT_BITS[to]
+                lo, hi = (-(1 << (bits - 1)), (1 << (bits - 1)) - 1) if to.startswith("i") else (0, (1 << bits) - 1)
+                if v != v:
+                    return 0
+                return max(lo, min(hi, int(v))) if abs(v) != float("inf") else (hi if v > 0 else lo)
             if isinstance(v, int):
                 bits = INT_BITS[to]
                 v &= (1 << bits) - 1
@@ -460,6 +475,9 @@ class Mini:
                 return v if INT_BITS[to] == 8 else to_wide(v, INT_BITS[to] // 8)
             if isinstance(v, Wide):
                 return to_wide(v, INT_BITS[to] // 8) if INT_BITS[to] > 8 else v.slots[0]
+        if to in ("f32", "f64") and isinstance(v, (int, float)) and not isinstance(v, bool):
+            import struct
+            return struct.unpack("<f", struct.pack("<f", float(v)))[0] if to == "f32" else float(v)
         raise Unsupported(f"cast {frm} -> {to} of {v!r}")
 
     # ---- expressions ---------------------------------------------------------------------------------------------
@@ -484,6 +502,11 @@ class Mini:
                 return int(n[2])
             if n[1] == "bool":
                 return n[2] == "true"
+            if n[1] == "float":
+                try:
+                    return float(n[2].replace("_", "").replace("f32", "").replace("f64", ""))
+                except ValueError:
+                    pass
             return ("lit", n[2])
         if t == "local":
             v = self.lookup(env, n[1])
